@@ -70,6 +70,9 @@ def run_check(d, prop, tier, seed="1", nproc=None):
     return r.returncode, time.time() - t, lines, r.stderr[-1500:]
 
 
+SEED = ["1"]
+
+
 def do_one(m, props, tier, tests, nproc=None):
     d = make_copy()
     try:
@@ -86,7 +89,7 @@ def do_one(m, props, tier, tests, nproc=None):
             out["tests_pass"] = ok
             out["tests_tail"] = tail
         for p in props:
-            rc, wall, lines, err = run_check(d, p, tier, nproc=nproc)
+            rc, wall, lines, err = run_check(d, p, tier, seed=SEED[0], nproc=nproc)
             out["checks"][p] = {"exit": rc, "wall": round(wall, 1), "lines": lines[:4]}
             if rc == 2:
                 out["checks"][p]["stderr"] = err
@@ -104,8 +107,10 @@ def main():
     ap.add_argument("--tier", default="quick")
     ap.add_argument("--props", default="")
     ap.add_argument("--seeds", default="1,2,3")
+    ap.add_argument("--seed", default="1", help="VERIF_SEED for run / patch")
     ap.add_argument("-j", type=int, default=1)
     a = ap.parse_intermixed_args()
+    SEED[0] = a.seed
 
     if a.cmd == "quiet":
         from vf.props import ALL_PROPS
